@@ -20,13 +20,13 @@ type Call struct {
 // RecStore is an in-memory Persist that records every call and can inject faults.
 // It is safe for concurrent use (mast stores from worker goroutines).
 type RecStore struct {
-	mu      sync.Mutex
-	Prefix  string
-	data    map[string][]byte
-	Calls   []Call
-	record  bool
-	nLoad   int
-	nStore  int
+	mu     sync.Mutex
+	Prefix string
+	data   map[string][]byte
+	Calls  []Call
+	record bool
+	nLoad  int
+	nStore int
 	// FailLoad / FailStore, when non-nil, decide per call (1-based index since
 	// the last ResetCounters) whether that call fails.
 	FailLoad  func(i int, name string) bool
@@ -182,3 +182,12 @@ func (s *RecStore) StoresSince(mark int) []Call {
 	}
 	return out
 }
+
+// AliasStore is a second handle on the same RecStore that reports another NodeURLPrefix
+// (the same node container reached through another endpoint or path spelling).
+type AliasStore struct {
+	*RecStore
+	AliasPrefix string
+}
+
+func (a AliasStore) NodeURLPrefix() string { return a.AliasPrefix }
